@@ -104,3 +104,10 @@ check(
     "Hypothesis property-based testing; differential filtered vs. unfiltered run with measured site lines",
     "DESIGN.md §3 C13",
 )
+check(
+    "C06", "exploration",
+    "Metamorphic generated search grounded in the repository's own SAST fixtures (input + tool document harvested from each of the 37 SAST codemods' unit tests; locations are shifted and replicated, never invented): 1-4 copies of a fixture in def/method/nested/if/... contexts with tab/CRLF/prepended-line layouts; a calibration run reports every site; then subsets of the findings (all 2^n subsets for n <= 3 in the thorough tier) and decoys (foreign rule at the same location, same rule for another file, RESOLVED status, foreign-tool SARIF run, empty document) are reported. Sites in the subset must end up exactly as in the calibration run, all other text must be unchanged, decoys and the empty document produce no change and no changeset, every rewritten site has a change entry carrying a finding of its rule (and id for DefectDojo), no entry carries an unreported rule or id.",
+    "Trusted: the calibration run as the definition of 'equally vulnerable site' (copies not acted on there are dropped and counted); fixtures as ground truth for each tool's location convention; finding identity by rule (by id for DefectDojo).",
+    "Hypothesis property-based metamorphic testing over harvested tool fixtures (subset/decoy relations vs. full-report run)",
+    "DESIGN.md §3 C06",
+)
